@@ -654,6 +654,13 @@ func (fv *FuncVer) applyContract(st *State, ins ssa.Instruction, blk *Block, ful
 	for _, cl := range blk.ClausesOf("ensures") {
 		st.assume(fv.evalBool(post, cl.Expr))
 	}
+	// memory the callee lends to the caller: the caller must not write through it
+	for _, cl := range blk.ClausesOf("borrowed") {
+		v := post.eval(cl.Expr)
+		if v.T != nil && v.T.Sort == c.SSlice {
+			st.borrowed = append(append([]borrowedMem(nil), st.borrowed...), borrowedMem{base: Field(v.T, 0), off: Field(v.T, 1), ln: Field(v.T, 2), what: short + ": " + cl.Text})
+		}
+	}
 	// copy-out of boxed interior pointers
 	for _, b := range boxes {
 		fv.store(st, b.orig, fv.load(st, b.tmp))
